@@ -1,0 +1,18 @@
+//go:build verif
+
+// Contracts for the govc verifier (/verif). Comment-only.
+
+package waddrmgr
+
+// ---- C10: every function that can reach a database write reports a failed
+// write (applied to all such functions of the package, including closures) ----
+//@ auto C10 modifies wfault
+//@   ensures fault_reported: wfault && !old(wfault) ==> err != nil
+//@   loopinv no_new_fault: wfault ==> old(wfault)
+
+// explicit entries only attach a replay scenario; the fault-propagation
+// clauses come from the auto rule above
+//@ func putAddrAccountIndex(ns, scope, account, addrHash) (err)
+//@   replay waddrmgr_fault.go
+//@ func putChainedAddress(ns, scope, addressID, account, status, branch, index, addrType) (err)
+//@   replay waddrmgr_fault.go
